@@ -664,8 +664,10 @@ class Engine:
         return unknown("rvalue " + k)
 
     # ---- running -----------------------------------------------------------------------------
-    def run(self, fn, args=None, store=None):
+    def run(self, fn, args=None, store=None, tagfacts=None):
         st = State()
+        if tagfacts:
+            st.tagfacts.update(tagfacts)      # explore only the paths on which these discriminants have the given values
         st.ids = itertools.count(1)
         fid = 0
         st.frames.append({"fn": fn, "fid": fid, "bb": 0, "dest": None, "ret_to": None,
